@@ -1,6 +1,6 @@
 CONSTANTS
   Defects = {"text_accepted"}
-  Family = "errors"
+  Family = "errors_small"
   Deep = FALSE
 INIT Init
 NEXT Next
